@@ -27,7 +27,7 @@ def run_alphabet(rep, alphabet, depth, d, simulate=None, seed=None):
     nv.write_ndjson(inp, [{"id": i, "prelude": meta["prelude"], "modules": meta["modules"], "probes": meta["probes"],
                            "steps": [s["text"] for s in c["steps"]]} for i, c in enumerate(cases)])
     nv.harness("nv-session", ["session-c07", "--cases", inp, "--out", out, "--dir", d])
-    results = nv.read_ndjson_text(open(out).read())
+    results = nv.read_ndjson_text(open(out, encoding="utf-8").read())
     nontrivial = 0
     for c, r in zip(cases, results):
         rep.add("evaluations", 1)
